@@ -289,6 +289,8 @@ def project_emission(x, cfg, res, escaped):
     else:
         pre = x.get('prerender') or []
         ct = 'app' if pre and pre[0].get('ct_set') else 'fw'
+        if not pre or pre[0].get('ct_set') is None:
+            facts['ctunknown'] = True       # the response was not rendered through App._get_body
     render_fault = any(p.get('raised') for p in (x.get('prerender') or []))
     if asgi and x['handled']:
         render_fault = True                 # cannot be excluded from outside: exempts PrecedenceC only
@@ -443,7 +445,7 @@ def parse_sink(pattern):
 
 def project_dispatch(x, cfg, res):
     """part D / S: the inspected configuration in Dispatch's vocabulary + what was observed"""
-    obs = {'kind': 'none', 'id': -1, 'sfx': '', 'kw': [], 'status': res.status if isinstance(res.status, int) else -1,
+    obs = {'kind': 'none', 'ids': [], 'sfx': '', 'kw': [], 'status': res.status if isinstance(res.status, int) else -1,
            'hasAllow': False, 'allow': []}
     d = {'routed': False, 'stdrouter': False, 'custommethods': False, 'tmplok': False, 'sinkok': False, 'orderok': False, 'whook': False,
          'middleware': True, 'ownhandlers': True, 'm': '', 'p': [], 'routes': [], 'asm': [], 'sbs': False, 'obs': obs}
@@ -512,13 +514,14 @@ def project_dispatch(x, cfg, res):
         hits = [rt for rt in routes if rt['_path'] == r.get('tmpl')]
         fn = r.get('fn')
         if len(hits) == 1 and isinstance(fn, str) and fn.startswith('on_'):
-            obs['id'] = hits[0]['rid']
+            obs['ids'] = [hits[0]['rid']]
             obs['sfx'] = asc('_'.join(fn.split('_')[2:]))      # on_<method>[_<suffix>], read as falcon.inspect reads it
         else:
             whook = False
     elif kind in ('sink', 'static'):
-        if isinstance(r.get('fb'), int) and r['fb'] > 0:
-            obs['id'] = r['fb']
+        fb = r.get('fb')
+        if isinstance(fb, list) and fb and all(isinstance(i, int) and i > 0 for i in fb):
+            obs['ids'] = sorted(fb)          # the assembly calls that registered the callable that ran
         else:
             orderok = d['orderok'] = False
     d['whook'] = whook
@@ -605,6 +608,7 @@ def _run(ctx, out):
         suite = run_suite(ctx, files, out, workers=8, timeout=ctx.pick(600, 1800))
     ctx.extra['suite'] = suite
     ctx.progress('suite: %s' % suite['summary'])
+    print('G01 suite under the recorder: %s' % suite['summary'])
     if not os.path.exists(out):
         raise MachineryError('the recorder wrote nothing (plugin not loaded?)\n%s' % suite['summary'])
     apps, xs, errs = load(out)
@@ -667,6 +671,7 @@ def _run(ctx, out):
         with open(os.environ['G01_DUMP'], 'w') as f:
             for (t, info, nodes), v in zip(items, verdicts):
                 f.write(json.dumps({'v': v, 'tests': sorted(set(nodes)), 'info': info, 'x': t['x'], 'c': t['c']}, default=repr) + '\n')
+    selftest(ctx, items, verdicts)
     ctx.extra['exchanges'] = n_x
     ctx.extra['parts'] = counts
     print('G01 exchanges: recorded=%(recorded)d distinct=%(distinct)d expressible(some part judged)=%(expressible)d '
@@ -676,6 +681,66 @@ def _run(ctx, out):
         print('G01 part %s (%s): judged=%d ok=%d violations=%s skipped=%s'
               % (p, title, c['judged'], c['ok'], c['violations'] or 0,
                  ', '.join('%s:%d' % kv for kv in sorted(c['skipped'].items())) or 0))
+
+
+def selftest(ctx, items, verdicts):
+    """Vacuity guard: accepted projections of this very run, corrupted in one field each, must be rejected by the
+    clause that speaks about that field (otherwise the judge or Expressible has become vacuous)."""
+    import copy
+
+    def first(pred):
+        for (t, _, _), v in zip(items, verdicts):
+            if pred(t, v):
+                return copy.deepcopy(t)
+        return None
+    cases = []
+    t = first(lambda t, v: v['E'] == 'ok' and t['c']['iface'] != 'asgi' and t['c']['text'] > 0 and t['c']['method'] == 'GET'
+              and not t['sendFailed'] and len(t['ev']) == 3)
+    if t:
+        a = copy.deepcopy(t); a['ev'][0]['cl'] += 1; cases.append(('E', 'P:LengthConsistent', a))
+        a = copy.deepcopy(t); a['ev'] = a['ev'][:-1]; cases.append(('E', 'P:OnlyLastHasNoMoreBody', a))
+        a = copy.deepcopy(t); a['ev'].insert(1, dict(a['ev'][0])); cases.append(('E', 'P:ExactlyOneStart', a))
+        a = copy.deepcopy(t); a['c']['method'] = 'HEAD'; cases.append(('E', 'P:BodilessHaveNoBytes', a))
+        a = copy.deepcopy(t); a['ev'][0]['ct'] = 'none'; cases.append(('E', 'P:OthersHaveType', a))
+        a = copy.deepcopy(t); a['pieces'] = [['data', 0]]; cases.append(('E', 'P:Precedence', a))
+        a = copy.deepcopy(t); a['errors'] = 1; cases.append(('E', 'P:Protocol', a))
+    t = first(lambda t, v: v['E'] == 'ok' and t['c']['iface'] == 'asgi' and len(t['ev']) == 2 and t['ev'][1]['n'] > 0)
+    if t:
+        a = copy.deepcopy(t); a['ev'][1]['more'] = True; cases.append(('E', 'P:OnlyLastHasNoMoreBody', a))
+        a = copy.deepcopy(t); a['ev'].append(dict(a['ev'][1])); cases.append(('E', 'P:NothingAfterFinal', a))
+    t = first(lambda t, v: v['H'] == 'ok' and t['c']['iface'] == 'asgi' and len(t['h']['plain']) >= 2 and not t['h']['lines'])
+    if t:
+        a = copy.deepcopy(t); a['h']['plain'].append(dict(a['h']['plain'][0], c=99)); cases.append(('H', 'P:EmitOncePerPlainHeader', a))
+        a = copy.deepcopy(t); a['h']['plain'] = a['h']['plain'][1:]; cases.append(('H', 'P:EmitOncePerPlainHeader', a))
+        a = copy.deepcopy(t); a['h']['plain'][0]['c'] = 1; cases.append(('H', 'P:AsgiNamesLower', a))
+        a = copy.deepcopy(t); a['h']['lines'].append({'name': 'sid', 'text': 'sid=1'}); cases.append(('H', 'P:OneLinePerCookieAndRawCookie', a))
+    t = first(lambda t, v: v['H'] == 'ok' and len(t['h']['cookies']) == 1 and len(t['h']['lines']) == 1)
+    if t:
+        a = copy.deepcopy(t); a['h']['lines'] = []; cases.append(('H', 'P:OneLinePerCookieAndRawCookie', a))
+    t = first(lambda t, v: v['D'] == 'ok' and t['d']['obs']['kind'] == 'res' and t['d']['obs']['kw'])
+    if t:
+        a = copy.deepcopy(t); a['d']['obs']['kind'] = 'notfound'; cases.append(('D', 'P:who', a))
+        a = copy.deepcopy(t); a['d']['obs']['ids'] = [99]; cases.append(('D', 'P:who', a))
+        a = copy.deepcopy(t); a['d']['obs']['sfx'] = 'zz'; cases.append(('D', 'P:suffix', a))
+        a = copy.deepcopy(t); a['d']['obs']['kw'] = []; cases.append(('D', 'P:kwargs', a))
+    t = first(lambda t, v: v['D'] == 'ok' and t['d']['obs']['kind'] == 'sink' and len([a for a in t['d']['asm'] if a['kind'] == 'sink']) >= 2)
+    if t:
+        a = copy.deepcopy(t); a['d']['asm'].reverse(); cases.append(('D', 'P:who', a))       # the other recency order
+    t = first(lambda t, v: v['S'] == 'ok' and t['d']['obs']['kind'] == 'notallowed')
+    if t:
+        a = copy.deepcopy(t); a['d']['obs']['allow'] = [m for m in a['d']['obs']['allow'] if m != 'OPTIONS']; cases.append(('S', 'P:allow', a))
+        a = copy.deepcopy(t); a['d']['obs']['status'] = 404; cases.append(('S', 'P:status', a))
+    if len(cases) < 15 and not ctx.violations:       # (a run full of violations may not offer the accepted observations)
+        raise MachineryError('self-test: only %d corrupted observations could be built from this run' % len(cases))
+    if not cases:
+        return
+    got = judge(ctx, [a for _, _, a in cases], workers=4)
+    ctx.traces_validated -= len(cases)
+    bad = [(p, want, g[p]) for (p, want, _), g in zip(cases, got) if g[p] != want]
+    if bad:
+        raise MachineryError('self-test: corrupted observations were not rejected as expected (part, expected, got): %r' % bad)
+    ctx.extra['selftest_corruptions_rejected'] = len(cases)
+    ctx.progress('self-test: %d corrupted observations rejected by the clauses that speak about them' % len(cases))
 
 
 def replay(ctx, case):
